@@ -264,8 +264,10 @@ def dec_range_cases(draw, max_items=4):
             probes.add(finite[-1] + 1000)
     for extra in draw(st.lists(st.decimals(min_value=-100, max_value=100, places=2), min_size=2, max_size=2)):
         probes.add(extra)
+    # zero in its signed spellings: equal to 0 whatever the sign says (a set would merge them: kept aside)
+    signed_zeros = ["-0", "-0.0", "-0.00", "0.000", "-0E+2"]
     return {"kind": "dec", "description": description, "items": out_items,
-            "probes": [format(p, "f") for p in sorted(probes)], "spellings": sorted(kinds)}
+            "probes": [format(p, "f") for p in sorted(probes)] + signed_zeros, "spellings": sorted(kinds)}
 
 
 # -- reference semantics -----------------------------------------------------
